@@ -57,30 +57,39 @@ structure DState where
   dyn : Option Dyn := none
   bres : Option (Option Str) := none   -- confd's cached BGPConfiguration
   sub : Bool := true                   -- node's network_v4 known
+  dis : List Bool := []                -- per pool: disabled flag (echoed only; ownership ignores it)
 
-def classOf : Char → Option PoolClass
-  | 'i' => some .ipip
-  | 'v' => some .vxlan
-  | 'n' => some .noEncap
+/-- lower case = enabled pool, upper case = DISABLED pool of that class -/
+def specOf : Char → Option PoolSpec
+  | 'i' => some ⟨.ipip, false⟩
+  | 'v' => some ⟨.vxlan, false⟩
+  | 'n' => some ⟨.noEncap, false⟩
+  | 'I' => some ⟨.ipip, true⟩
+  | 'V' => some ⟨.vxlan, true⟩
+  | 'N' => some ⟨.noEncap, true⟩
   | _ => none
 
-def classesOf (s : String) : Option (List PoolClass) :=
-  s.toList.foldr (fun c acc => match classOf c, acc with
+def classesOf (s : String) : Option (List PoolSpec) :=
+  s.toList.foldr (fun c acc => match specOf c, acc with
     | some x, some l => some (x :: l)
     | _, _ => none) (some [])
 
-def classChar : PoolClass → String
-  | .ipip => "i"
-  | .vxlan => "v"
-  | .noEncap => "n"
+def classChar (c : PoolClass) (disabled : Bool) : String :=
+  match c, disabled with
+  | .ipip, false => "i"
+  | .vxlan, false => "v"
+  | .noEncap, false => "n"
+  | .ipip, true => "I"
+  | .vxlan, true => "V"
+  | .noEncap, true => "N"
 
 /-- `flags=<ipipEnabled><vxlanEnabled><noEncapNeeded> p0=<class><felix remote block><felix local block><bird> …` -/
-def showDyn (bres : Option (Option Str)) (sub : Bool) (d : Dyn) : String :=
+def showDyn (bres : Option (Option Str)) (sub : Bool) (dis : List Bool) (d : Dyn) : String :=
   let bv := confdSetting bres
   let fl := encapFlags d.env
   let pools := d.classes.zipIdx.map (fun x =>
     let bird := birdKernelV4 sub (bgpPolicy Gen.bgpTable bv) x.1.modes.1 x.1.modes.2
-    s!"p{x.2}={classChar x.1}{showBool (d.programs (2 * x.2))}{showBool (d.programs (2 * x.2 + 1))}{showBool bird}")
+    s!"p{x.2}={classChar x.1 (dis.getD x.2 false)}{showBool (d.programs (2 * x.2))}{showBool (d.programs (2 * x.2 + 1))}{showBool bird}")
   s!"flags={showBool fl.1}{showBool fl.2.1}{showBool fl.2.2} " ++ joinWith " " pools
 
 def dynStep (st : DState) (line : String) : Option (DState × String) :=
@@ -88,41 +97,43 @@ def dynStep (st : DState) (line : String) : Option (DState × String) :=
   | ["dnew", f, b0, cs] =>
     match setting false f, setting true b0, classesOf cs with
     | some f, some b, some cs =>
-      let d := Dyn.start Gen.felixTable Gen.guards (felixValue Gen.felixTable f) cs
+      let d := Dyn.startSpecs Gen.felixTable Gen.guards (felixValue Gen.felixTable f) cs
+      let dis := cs.map (·.disabled)
       -- `nil` = no BGPConfiguration resource; anything else = a KVNew event carrying that setting
       let bres := if b0 == "nil" then none else confdRun none [.set b]
-      some ({ fv := f, dyn := some d, bres := bres, sub := true }, showDyn bres true d)
+      some ({ fv := f, dyn := some d, bres := bres, sub := true, dis := dis }, showDyn bres true dis d)
     | _, _, _ => some (st, "bad-op")
   | ["bset", b] =>
     match st.dyn, setting false b with
     | some d, some b =>
       let bres := confdRun st.bres [.set b]
-      some ({ st with bres := bres }, showDyn bres st.sub d)
+      some ({ st with bres := bres }, showDyn bres st.sub st.dis d)
     | _, _ => some (st, "bad-op")
   | ["bdel"] =>
     match st.dyn with
     | some d =>
       let bres := confdRun st.bres [.del]
-      some ({ st with bres := bres }, showDyn bres st.sub d)
+      some ({ st with bres := bres }, showDyn bres st.sub st.dis d)
     | none => some (st, "bad-op")
   | ["fset", f] =>
     match st.dyn, setting false f with
     | some d, some f =>
       let d' := Dyn.start Gen.felixTable Gen.guards (felixValue Gen.felixTable f) d.classes
-      some ({ st with fv := f, dyn := some d' }, "restart " ++ showDyn st.bres st.sub d')
+      some ({ st with fv := f, dyn := some d' }, "restart " ++ showDyn st.bres st.sub st.dis d')
     | _, _ => some (st, "bad-op")
   | ["dsub", x] =>
     match st.dyn, bit x with
-    | some d, some x => some ({ st with sub := x }, showDyn st.bres x d)
+    | some d, some x => some ({ st with sub := x }, showDyn st.bres x st.dis d)
     | _, _ => some (st, "bad-op")
   | ["dset", p, c] =>
     match st.dyn, p.toNat?, c.toList with
     | some d, some p, [ch] =>
-      match classOf ch with
+      match specOf ch with
       | some c =>
         if p < d.classes.length then
-          let r := Dyn.setClass Gen.felixTable Gen.guards (felixValue Gen.felixTable st.fv) d p c
-          some ({ st with dyn := some r.1 }, (if r.2 then "restart " else "") ++ showDyn st.bres st.sub r.1)
+          let r := Dyn.setSpec Gen.felixTable Gen.guards (felixValue Gen.felixTable st.fv) d p c
+          let dis := st.dis.set p c.disabled
+          some ({ st with dyn := some r.1, dis := dis }, (if r.2 then "restart " else "") ++ showDyn st.bres st.sub dis r.1)
         else some (st, "bad-op")
       | none => some (st, "bad-op")
     | _, _, _ => some (st, "bad-op")
